@@ -282,6 +282,10 @@ func numberShape(v cty.Value) string {
 
 func keyClass(k string) string {
 	switch {
+	case strings.HasPrefix(k, "\ufeff"):
+		// hclsyntax.ValidIdentifier strips a leading byte-order mark before
+		// scanning, so such keys are judged by what follows the mark
+		return "key-bom-prefix"
 	case k == "for":
 		return "key-for"
 	case keywords[k]:
@@ -309,48 +313,51 @@ type checker func(v cty.Value) *failure
 func tokensChecker(v cty.Value) *failure { _, f, _ := checkTokens(v, false); return f }
 func attrChecker(v cty.Value) *failure   { f, _ := checkAttr(v, false); return f }
 
-func failsWith(chk checker, v cty.Value, clause string) (res bool) {
+func tryCheck(chk checker, v cty.Value) (f *failure) {
 	defer func() {
 		if r := recover(); r != nil {
-			res = false
+			f = &failure{clause: "panic", detail: fmt.Sprint(r)}
 		}
 	}()
-	f := chk(v)
-	return f != nil && f.clause == clause
+	return chk(v)
 }
 
-// localize names the smallest construct inside v that on its own violates
-// the same clause (so that one defect gets one class however it is nested).
-func localize(chk checker, v cty.Value, clause string) string {
+// classify names the failure after the smallest construct inside v that
+// fails on its own (with whatever clause it fails with there), so that one
+// defect gets one class however it is nested or combined: the result is
+// "<clause>.<construct>" of that smallest failing sub-case.
+func classify(chk checker, v cty.Value, f *failure) string {
 	ty := v.Type()
 	switch {
 	case v.IsNull():
-		return "null-" + tyShort(ty)
+		return f.clause + ".null-" + tyShort(ty)
 	case ty == cty.String:
 		rs := []rune(v.AsString())
 		for l := 1; l < len(rs); l++ {
 			for i := 0; i+l <= len(rs); i++ {
 				sub := string(rs[i : i+l])
-				if failsWith(chk, cty.StringVal(sub), clause) {
-					return "string." + stringFeatures(sub)
+				if f2 := tryCheck(chk, cty.StringVal(sub)); f2 != nil {
+					return f2.clause + ".string." + stringFeatures(sub)
 				}
 			}
 		}
-		return "string." + stringFeatures(v.AsString())
+		return f.clause + ".string." + stringFeatures(v.AsString())
 	case ty == cty.Number:
-		return "number." + numberShape(v)
+		return f.clause + ".number." + numberShape(v)
 	case ty == cty.Bool:
-		return "bool"
+		return f.clause + ".bool"
 	}
 	isObj := ty.IsMapType() || ty.IsObjectType()
 	// a sub-value that fails alone
 	for it := v.ElementIterator(); it.Next(); {
 		k, ev := it.Element()
-		if failsWith(chk, ev, clause) {
-			return localize(chk, ev, clause)
+		if f2 := tryCheck(chk, ev); f2 != nil {
+			return classify(chk, ev, f2)
 		}
-		if isObj && failsWith(chk, k, clause) {
-			return localize(chk, k, clause)
+		if isObj {
+			if f2 := tryCheck(chk, k); f2 != nil {
+				return classify(chk, k, f2)
+			}
 		}
 	}
 	cons := "tuplecons"
@@ -358,7 +365,7 @@ func localize(chk checker, v cty.Value, clause string) string {
 		cons = "objectcons"
 	}
 	kind := cons
-	if strings.HasSuffix(clause, "convert-error") || strings.HasSuffix(clause, "value-mismatch") {
+	if strings.HasSuffix(f.clause, "convert-error") || strings.HasSuffix(f.clause, "value-mismatch") {
 		switch {
 		case ty.IsListType():
 			kind = "list"
@@ -373,10 +380,10 @@ func localize(chk checker, v cty.Value, clause string) string {
 		}
 	}
 	if v.LengthInt() == 0 {
-		return kind + ".empty"
+		return f.clause + "." + kind + ".empty"
 	}
 	if !isObj {
-		return kind
+		return f.clause + "." + kind
 	}
 	// a single entry that fails alone
 	if v.LengthInt() > 1 {
@@ -388,14 +395,14 @@ func localize(chk checker, v cty.Value, clause string) string {
 			} else {
 				one = cty.ObjectVal(map[string]cty.Value{k.AsString(): ev})
 			}
-			if failsWith(chk, one, clause) {
-				return localize(chk, one, clause)
+			if f2 := tryCheck(chk, one); f2 != nil {
+				return classify(chk, one, f2)
 			}
 		}
 	}
 	fk, _ := firstKey(v)
 	if v.LengthInt() == 1 || fk == "for" {
-		return kind + ".first-" + keyClass(fk)
+		return f.clause + "." + kind + ".first-" + keyClass(fk)
 	}
-	return kind + ".multi-key.first-" + keyClass(fk)
+	return f.clause + "." + kind + ".multi-key.first-" + keyClass(fk)
 }
